@@ -6,6 +6,7 @@ import (
 
 	"github.com/enbility/spine-go/api"
 	"github.com/enbility/spine-go/model"
+	"github.com/enbility/spine-go/util"
 )
 
 // The use cases of all entities of a device are stored in one data set of the
@@ -146,7 +147,7 @@ func (r *EntityLocal) AddUseCaseSupport(
 
 	nodeMgmt := r.device.NodeManagement()
 
-	data, err := LocalFeatureDataCopyOfType[*model.NodeManagementUseCaseDataType](nodeMgmt, model.FunctionTypeNodeManagementUseCaseData)
+	data, err := r.useCaseDataForUpdate(nodeMgmt)
 	if err != nil {
 		data = &model.NodeManagementUseCaseDataType{}
 	}
@@ -159,6 +160,21 @@ func (r *EntityLocal) AddUseCaseSupport(
 	data.AddUseCaseSupport(address, actor, useCaseName, useCaseVersion, useCaseDocumemtSubRevision, useCaseAvailable, scenarios)
 
 	nodeMgmt.SetData(model.FunctionTypeNodeManagementUseCaseData, data)
+}
+
+// Returns a deep copy of the use case data. The operations changing the use case data
+// modify the items of its lists, but the copy of the feature shares these lists with
+// the stored data and with the copies that were handed out before.
+func (r *EntityLocal) useCaseDataForUpdate(nodeMgmt api.NodeManagementInterface) (*model.NodeManagementUseCaseDataType, error) {
+	data, err := LocalFeatureDataCopyOfType[*model.NodeManagementUseCaseDataType](nodeMgmt, model.FunctionTypeNodeManagementUseCaseData)
+	if err != nil {
+		return nil, err
+	}
+
+	copiedData := &model.NodeManagementUseCaseDataType{}
+	util.DeepCopy(data, copiedData)
+
+	return copiedData, nil
 }
 
 // Check if a use case is already added
@@ -189,7 +205,7 @@ func (r *EntityLocal) SetUseCaseAvailability(
 
 	nodeMgmt := r.device.NodeManagement()
 
-	data, err := LocalFeatureDataCopyOfType[*model.NodeManagementUseCaseDataType](nodeMgmt, model.FunctionTypeNodeManagementUseCaseData)
+	data, err := r.useCaseDataForUpdate(nodeMgmt)
 	if err != nil {
 		return
 	}
@@ -214,7 +230,7 @@ func (r *EntityLocal) RemoveUseCaseSupport(
 
 	nodeMgmt := r.device.NodeManagement()
 
-	data, err := LocalFeatureDataCopyOfType[*model.NodeManagementUseCaseDataType](nodeMgmt, model.FunctionTypeNodeManagementUseCaseData)
+	data, err := r.useCaseDataForUpdate(nodeMgmt)
 	if err != nil {
 		return
 	}
@@ -236,7 +252,7 @@ func (r *EntityLocal) RemoveAllUseCaseSupports() {
 
 	nodeMgmt := r.device.NodeManagement()
 
-	data, err := LocalFeatureDataCopyOfType[*model.NodeManagementUseCaseDataType](nodeMgmt, model.FunctionTypeNodeManagementUseCaseData)
+	data, err := r.useCaseDataForUpdate(nodeMgmt)
 	if err != nil {
 		return
 	}
